@@ -273,3 +273,14 @@ mut("c11g-removed-also-for-added", "C11", "yrs/src/types/mod.rs", "             
 mut("c11g-benign-named-flags", "C11", "yrs/src/types/mod.rs", "                if txn.has_deleted(&item.id) && !txn.has_added(&item.id) {", "                let gone = txn.has_deleted(&item.id);\n                let fresh = txn.has_added(&item.id);\n                if gone && !fresh {", "", kind="benign")
 mut("split-deleted-keeps-full-len", "C03", B, "                let right = ItemContent::Deleted(*len - offset as u32);\n                *len = offset as u32;", "                let right = ItemContent::Deleted(*len - offset as u32);", "splice", also=["C04"])
 mut("split-any-returns-left", "C03", B, "                *self = ItemContent::Any(left);\n                Some(ItemContent::Any(right))", "                *self = ItemContent::Any(right);\n                Some(ItemContent::Any(left))", "splice", also=["C04"])
+
+# ---------------------------------------------------------------- rules added during the fifth seeded round
+IDS = "yrs/src/ids.rs"
+mut("c16f-exclude-empty-prefix", "C16", IDS, "                if other_range.start > start {\n                    result.push((start..other_range.start, value.clone()));",
+    "                if other_range.start >= start {\n                    result.push((start..other_range.start, value.clone()));", "C16.f")
+mut("c16f-intersect-empty-overlap", "C16", IDS, "                if lo < hi {\n                    let mut merged = value.clone();", "                if lo <= hi {\n                    let mut merged = value.clone();", "C16.f")
+mut("c16f-remove-split-empty-right", "C16", IDS, "        if self.0[i].0.start < range.start && self.0[i].0.end > range.end {", "        if self.0[i].0.start < range.start && self.0[i].0.end >= range.end {", "C16.f")
+mut("c16f-push-coalesced-unguarded", "C16", IDS, "    if range.start >= range.end {\n        return;\n    }\n    if let Some(last) = vec.last_mut() {", "    if let Some(last) = vec.last_mut() {", "C16.f")
+mut("c16f-benign-flipped-comparison", "C16", IDS, "                if other_range.start > start {\n                    result.push((start..other_range.start, value.clone()));",
+    "                if start < other_range.start {\n                    result.push((start..other_range.start, value.clone()));", "", kind="benign")
+mut("c16f-benign-tail-guard-negated", "C16", IDS, "            if start < end {\n                result.push((start..end, value.clone()));\n            }", "            if !(start >= end) {\n                result.push((start..end, value.clone()));\n            }", "", kind="benign")
